@@ -23,8 +23,12 @@ BuildUnparseStack(us, pre) ==
     IF us # None /\ pre # None THEN [err |-> TRUE, stack |-> <<>>]
     ELSE [err |-> FALSE, stack |-> (IF pre = None THEN <<>> ELSE pre) \o (IF us = None THEN DefaultUnparse ELSE us)]
 
+\* "DR" is a block middleware answering None for every entry: the entry leaves the library, and everything after it
+\* in the stack (and the writer) sees the library WITHOUT it - an empty library is a result like any other.
 ApplyMw(m, e) ==
-    CASE m \in {"P1", "P2", "P3", "L1"} -> [e EXCEPT !.log = Append(@, <<m, e.layers>>)]
+    IF ~e.live THEN e ELSE
+    CASE m = "DR" -> [e EXCEPT !.live = FALSE]
+      [] m \in {"P1", "P2", "P3", "L1"} -> [e EXCEPT !.log = Append(@, <<m, e.layers>>)]
       [] m = "RS" -> e
       [] m = "RE" -> [e EXCEPT !.layers = IF @ > 0 THEN @ - 1 ELSE 0]
       [] m = "AE" -> [e EXCEPT !.layers = @ + 1]
@@ -34,10 +38,10 @@ Fold(stack, e) == IF stack = <<>> THEN e ELSE Fold(Tail(stack), ApplyMw(Head(sta
 
 \* value type-state: "RE" needs string values; after "MI" the month is an int (such a stack may raise: C07)
 Applicable(stack) == \A i, j \in DOMAIN stack : i < j => ~(stack[i] = "MI" /\ stack[j] = "RE")
-Split0 == [layers |-> 1, log |-> <<>>, mint |-> FALSE]        \* what the scanner yields for  title = {x}, month = 3
+Split0 == [layers |-> 1, log |-> <<>>, mint |-> FALSE, live |-> TRUE]        \* what the scanner yields for  title = {x}, month = 3
 \* parse_string(text, library=L): the scanner ADDS the new blocks to L and the stack then runs over the whole library,
 \* L's earlier blocks included; Pre0 is such an earlier entry (title = {{x}}, month = 3, never transformed).
-Pre0 == [layers |-> 2, log |-> <<>>, mint |-> FALSE]
+Pre0 == [layers |-> 2, log |-> <<>>, mint |-> FALSE, live |-> TRUE]
 ParseString(ps, app) == LET b == BuildParseStack(ps, app) IN
                         IF b.err THEN [err |-> TRUE]
                         ELSE [err |-> FALSE, e |-> Fold(b.stack, Split0), pre |-> Fold(b.stack, Pre0)]
@@ -49,7 +53,8 @@ DefaultFmt == [indent |-> "\t", vc |-> 0, sep |-> "\n\n", tc |-> FALSE,
                pfc |-> [pre |-> "% WARNING Parsing failed for the following ", post |-> " lines.", n |-> TRUE]]
 WriteString(e0, us, pre) == LET b == BuildUnparseStack(us, pre) IN
                             IF b.err THEN [err |-> TRUE]
-                            ELSE LET e == Fold(b.stack, e0) IN [err |-> FALSE, e |-> e, text |-> Write(<<EntryOf(e)>>, DefaultFmt)]
+                            ELSE LET e == Fold(b.stack, e0) IN [err |-> FALSE, e |-> e,
+                                                                  text |-> Write(IF e.live THEN <<EntryOf(e)>> ELSE <<>>, DefaultFmt)]
 
 \* ---- splice protocol ---------------------------------------------------------
 \* result kinds of transform_block for one block b (ids are block ids; "x1" "x2" fresh blocks)
